@@ -13,8 +13,22 @@ REPO = os.environ.get('ONSAGER_REPO', '/repo')
 PKG = 'onsager'
 
 
-NORMALIZE = os.environ.get('SA_RAW') != '1'
+# Which tree a property's rules read.  The behaviour-preserving normal form (sa/engines/norm.py) is used ONLY by the
+# checks whose rules were written for it and validated on it (clean tree, seeded changes, neutral-refactor corpus); every
+# other check reads the tree as written, which is what its rules and its confirmed instance counts refer to.  Feeding a
+# rule a tree form it was not written for makes its anchors vanish (false alarms / floors not met), so the form is part of
+# the rule, declared here per property, and never a global switch.
+NORMAL_FORM_PROPS = frozenset(['C01', 'C02', 'C04'])
+FORMS = ('raw', 'normal')
 _NORM_CACHE = {}
+
+
+def form_for(prop):
+    """tree form read by property ``prop``; SA_FORM=raw|normal overrides it for experiments (never set by a registered command)."""
+    forced = os.environ.get('SA_FORM')
+    if forced in FORMS:
+        return forced
+    return 'normal' if prop in NORMAL_FORM_PROPS else 'raw'
 
 
 def _normalized(src, raw):
@@ -118,8 +132,9 @@ class ClassInfo:
 
 
 class Module:
-    def __init__(self, name, path, relpath, src):
+    def __init__(self, name, path, relpath, src, form='raw'):
         self.name = name
+        self.form = form
         self.path = path
         self.relpath = relpath
         self.src = src
@@ -127,10 +142,11 @@ class Module:
             raw = ast.parse(src, filename=path)
         except SyntaxError as e:
             raise AnalysisError('cannot parse %s: %s' % (relpath, e))
-        # every rule reads the behaviour-preserving normal form (sa/engines/norm.py); the tree as written stays
-        # available as ``raw_tree`` for the few rules about text (format strings, docstrings, resources)
+        # form 'normal': the rules read the behaviour-preserving normal form (sa/engines/norm.py) and the tree as written
+        # stays available as ``raw_tree`` for rules about text (format strings, docstrings, resources);
+        # form 'raw': the rules read the tree as written
         self.raw_tree = attach_parents(raw)
-        self.tree = attach_parents(_normalized(src, raw)) if NORMALIZE else self.raw_tree
+        self.tree = attach_parents(_normalized(src, raw)) if form == 'normal' else self.raw_tree
         self.classes = {}
         self.functions = {}  # qualname -> FunctionDef ('f', 'C.m', 'C.m.inner')
         self.imports = {}  # local alias -> dotted target ('np' -> 'numpy', 'pinv' -> 'scipy.linalg.pinv')
@@ -195,7 +211,10 @@ class Model:
     adequacy tier (in-memory mutants), never for a tree verdict.
     """
 
-    def __init__(self, repo=None, overrides=None):
+    def __init__(self, repo=None, overrides=None, form='raw'):
+        if form not in FORMS:
+            raise AnalysisError('unknown tree form %r' % (form,))
+        self.form = form
         self.repo = repo or REPO
         self.overrides = overrides or {}
         self.modules = {}
@@ -206,14 +225,14 @@ class Model:
         for fn in sorted(os.listdir(pkgdir)):
             if fn.endswith('.py'):
                 rel = os.path.join(PKG, fn)
-                self.modules[fn[:-3]] = Module(fn[:-3], os.path.join(pkgdir, fn), rel, self.read(rel))
+                self.modules[fn[:-3]] = Module(fn[:-3], os.path.join(pkgdir, fn), rel, self.read(rel), form)
         bindir = os.path.join(self.repo, 'bin')
         if os.path.isdir(bindir):
             for fn in sorted(os.listdir(bindir)):
                 if fn.endswith('.py'):
                     rel = os.path.join('bin', fn)
                     try:
-                        self.scripts[fn[:-3]] = Module(fn[:-3], os.path.join(bindir, fn), rel, self.read(rel))
+                        self.scripts[fn[:-3]] = Module(fn[:-3], os.path.join(bindir, fn), rel, self.read(rel), form)
                     except AnalysisError:
                         pass
 
